@@ -168,6 +168,10 @@ class Counters(EngineBase):
                     ops.append({"op": "net", "nowrap": nowrap})
                 elif r < 0.9:
                     ops.append({"op": "disk", "nowrap": nowrap})
+                if r < 0.9 and rng.random() < 0.08:
+                    # this one call cannot read the kernel table (EMFILE,
+                    # EIO, ENOMEM): it fails, the history must survive
+                    ops[-1]["fail"] = rng.choice([24, 5, 12])
                 elif r < 0.95:
                     ops.append({"op": "clear", "which": "net"})
                 else:
@@ -199,6 +203,9 @@ class Counters(EngineBase):
                 k.apply_event(op["ev"])
                 continue
             k.begin_op(idx)
+            if op.get("fail"):
+                k.deny = {"/proc/net/dev": op["fail"],
+                          "/proc/diskstats": op["fail"]}
             try:
                 if kind == "net":
                     out = ("value", psutil.net_io_counters(
@@ -215,6 +222,22 @@ class Counters(EngineBase):
                     raise
                 out = ("exc", e)
             k.end_op()
+            k.deny = {}
+            if op.get("fail"):
+                if out[0] == "exc" and isinstance(out[1], OSError) and \
+                        out[1].errno == op["fail"]:
+                    probes["failed_read_call"] = probes.get(
+                        "failed_read_call", 0) + 1
+                    hist[kind].append("failed")
+                    continue
+                V("C10.exception", ["failed_read", "swallowed" if out[0] ==
+                                    "value" else type(out[1]).__name__],
+                  "net_io_counters" if kind == "net" else "disk_io_counters",
+                  "the kernel table could not be read (errno %d) but the "
+                  "call %s" % (op["fail"], "returned %r" % (out[1],)
+                               if out[0] == "value" else
+                               "raised %r" % (out[1],)))
+                continue
             if kind == "clear":
                 models[op["which"]].clear()
                 mono_prev[op["which"]] = {}
